@@ -192,6 +192,8 @@ int main(int argc, char** argv)
     if (argc < 2)
         return 2;
     std::ifstream in(argv[1]);
+    // optional operator-level trace (validated against spec/TraceOps.tla): the object under test only
+    FILE* trace = argc > 2 ? std::fopen(argv[2], "w") : nullptr;
     std::string line;
     long n = 0;
     while (std::getline(in, line)) {
@@ -205,7 +207,10 @@ int main(int argc, char** argv)
         int bitwise = 0, nans = 0;
         long ops = 0;
         try {
+            gmgpolar_verif::sink() = trace;
+            VERIF_EV("Ctor", "\"case\":%d", id);
             auto G = make(c, false);
+            gmgpolar_verif::sink() = nullptr;
             auto R = make(c, true);
             auto& gl = A::levels(*G);
             const auto& k = c["cfg"];
@@ -245,13 +250,22 @@ int main(int argc, char** argv)
             Vec real(N);
             if (!fmg) {
                 gl[0].solution() = u0;
+                gmgpolar_verif::sink() = trace;
+                // the markers solve() would emit around one cycle
+                VERIF_EV("SolveEnter", "\"fgs\":%d,\"nu1\":%d,\"nu2\":%d,\"fmgIts\":0,\"fmgKind\":0,\"kind\":%d,\"extMode\":%d,\"fmg\":0",
+                         (int)A::fgs(*G), k["nu1"].num(), k["nu2"].num(), kk, ext ? 1 : 0);
+                VERIF_EV("CycleRun", "\"k\":0,\"kind\":%d,\"ext\":%d,\"fgs\":%d", kk, ext ? 1 : 0, (int)A::fgs(*G));
                 A::cycle(*G, kk, ext, 0, gl[0].solution(), gl[0].rhs(), gl[0].residual());
+                VERIF_EV("CycleDone", "\"k\":1");
+                gmgpolar_verif::sink() = nullptr;
                 real = gl[0].solution();
             }
             else {
                 poison(gl[0].solution());
                 G->maxIterations(0);
+                gmgpolar_verif::sink() = trace;
                 G->solve();
+                gmgpolar_verif::sink() = nullptr;
                 real = G->solution();
             }
             I.u0     = &u0;
@@ -281,6 +295,7 @@ int main(int argc, char** argv)
         }
         catch (const std::exception& e) {
             fail = std::string("exception: ") + e.what();
+            gmgpolar_verif::sink() = nullptr;
         }
         std::cout << "{\"case\":" << id << ",\"ok\":" << (fail.empty() ? "true" : "false") << ",\"bitwise\":" << bitwise
                   << ",\"maxdiff\":" << maxdiff << ",\"ops\":" << ops << ",\"what\":\"" << mj::escape(fail) << "\"}" << std::endl;
